@@ -1,8 +1,22 @@
 /-
-Fixed-OUTPUT asynchronous resamplers (`.fastOut`, `.sincOut`) at exact arithmetic (ρ = σ = ℚ):
-closed form of the stepping loop, spacing of the positions, size of the request for input
-(`needed`), the carry of `lastIndex` from one call to the next, window safety, and the bound
-against the advertised maximum.
+Fixed-OUTPUT asynchronous resamplers (`.fastOut`, `.sincOut`) at exact arithmetic (ρ = σ = ℚ).
+
+A  closed form of the stepping loop (`stepsOut`, `stepsOutLast`)
+B  spacing of the positions: a continuous, forward-only time warp
+C  the request for input (`needed`), the carry of `lastIndex`, the invariant `Inv` and its
+   preservation by `init`, `setRatio`, `setChunk`, `reset`, `finishOut`, `process`
+D  window safety of the polynomial kernels (`fast_window_in_fill`, `fastOut_no_fault`)
+E  `needed < input_frames_max()` (`needed_le_inMaxOut`)
+F  index bounds of the sinc point lists (`nearestTimes_bounds`, `sincOut_no_fault`,
+   `sincOut_not_stale`), the allocated buffer length suffices (`bufLen_sufficient`);
+   findings D12 (`sinc_factor_one_faults`) and D14 (example in G)
+G  non-vacuity examples
+H  a call whose buffers are long enough succeeds (`fastOut_finish_ok`, `sincOut_finish_ok`)
+I  `refill` succeeds and keeps the buffer lengths; `process_no_panic`
+J  `Good` = all invariants; kept by every API call in any order (`good_foldl`,
+   `process_after_any_history`)
+
+See REPORT_FixedOut.md for the list of statements and the extra hypotheses.
 -/
 import RubatoProofs.Lemmas.RatBridge
 import Mathlib.Tactic.FieldSimp
@@ -1356,6 +1370,483 @@ theorem sincOut_finish_ok {s : AState ℚ ℚ} (h : Inv s) (hk : s.kind = .sincO
   intro p hp
   have := sincOut_not_stale h hk hLip hno hp
   rw [hf]; simpa using this
+
+
+/-! ## I. Buffers: `refill` succeeds and keeps the lengths; the whole call cannot panic -/
+
+/-- every channel buffer has length `B` -/
+def AllSize (a : Array (Array ℚ)) (B : ℕ) : Prop := ∀ j (h : j < a.size), a[j].size = B
+
+theorem copyWithin_size (b : Array ℚ) (src n : ℕ) (h : src + n ≤ b.size) :
+    (copyWithin b src n).size = b.size := by
+  simp only [copyWithin, Array.size_append, Array.size_extract]; omega
+
+theorem loadAt_size (b : Array ℚ) (pos : ℕ) (data : Array ℚ) (h : pos + data.size ≤ b.size) :
+    (loadAt b pos data).size = b.size := by
+  simp only [loadAt, Array.size_append, Array.size_extract]; omega
+
+theorem getD_size_of_allSize {a : Array (Array ℚ)} {B : ℕ} (h : AllSize a B) {j : ℕ} (hj : j < a.size) :
+    (a.getD j #[]).size = B := by
+  rw [Array.getD_eq_getD_getElem?, Array.getElem?_eq_getElem hj]; exact h j hj
+
+theorem refill_go_some (loadN twoL B : ℕ) (hB : twoL + loadN ≤ B) (ms : List Bool)
+    (ins : List (Array ℚ)) (i : ℕ) (acc : Array (Array ℚ)) (hacc : AllSize acc B)
+    (hi : i + ms.length ≤ acc.size)
+    (hin : ∀ (j : ℕ) (inp : Array ℚ), ms[j]? = some true → ins[j]? = some inp → loadN ≤ inp.size) :
+    ∃ buf, refill.go loadN twoL i ms ins acc = some buf ∧ AllSize buf B ∧ buf.size = acc.size := by
+  induction ms generalizing ins i acc with
+  | nil => unfold refill.go; exact ⟨acc, rfl, hacc, rfl⟩
+  | cons m ms ih =>
+    cases ins with
+    | nil => unfold refill.go; exact ⟨acc, rfl, hacc, rfl⟩
+    | cons inp ins =>
+      have hin' : ∀ (j : ℕ) (inp' : Array ℚ), ms[j]? = some true → ins[j]? = some inp' → loadN ≤ inp'.size := by
+        intro j inp' h1 h2
+        exact hin (j + 1) inp' (by simpa using h1) (by simpa using h2)
+      simp only [List.length_cons] at hi
+      unfold refill.go
+      cases m with
+      | false =>
+        simp only [Bool.false_eq_true, if_false]
+        exact ih ins (i + 1) acc hacc (by omega) hin'
+      | true =>
+        have hlt : i < acc.size := by omega
+        have hsz := getD_size_of_allSize hacc hlt
+        have hinp : loadN ≤ inp.size := hin 0 inp (by simp) (by simp)
+        simp only [if_true, hsz]
+        rw [if_neg (by simp only [Bool.or_eq_true, decide_eq_true_eq]; omega)]
+        have hload : (loadAt (acc.getD i #[]) twoL (inp.extract 0 loadN)).size = B := by
+          rw [loadAt_size, hsz]
+          rw [hsz, Array.size_extract]; omega
+        have hacc' : AllSize (acc.setIfInBounds i (loadAt (acc.getD i #[]) twoL (inp.extract 0 loadN))) B := by
+          intro j hj
+          rw [Array.size_setIfInBounds] at hj
+          rw [Array.getElem_setIfInBounds hj]
+          by_cases hij : i = j
+          · rw [if_pos hij]; exact hload
+          · rw [if_neg hij]; exact hacc j hj
+        obtain ⟨buf, h1, h2, h3⟩ := ih ins (i + 1) _ hacc' (by rw [Array.size_setIfInBounds]; omega) hin'
+        exact ⟨buf, h1, h2, by rw [h3, Array.size_setIfInBounds]⟩
+
+/-- `refill` cannot fail when all buffers have length `B ≥ fill + 2L, 2L + loadN` and the active
+inputs hold `loadN` frames; it keeps the number and the lengths of the buffers -/
+theorem refill_some {s : AState ℚ ℚ} {B : ℕ} (hsz : AllSize s.buf B) (mask : List Bool)
+    (input : List (Array ℚ)) (shiftFrom loadN : ℕ) (h1 : shiftFrom + 2 * s.L ≤ B)
+    (h2 : 2 * s.L + loadN ≤ B) (hm : mask.length ≤ s.buf.size)
+    (hin : ∀ (j : ℕ) (inp : Array ℚ), mask[j]? = some true → input[j]? = some inp → loadN ≤ inp.size) :
+    ∃ buf, refill s mask input shiftFrom loadN = some buf ∧ AllSize buf B ∧ buf.size = s.buf.size := by
+  unfold refill
+  simp only
+  rw [if_neg]
+  · have hshift : AllSize (Array.map (fun b => copyWithin b shiftFrom (2 * s.L)) s.buf) B := by
+      intro j hj
+      rw [Array.getElem_map]
+      rw [Array.size_map] at hj
+      rw [copyWithin_size _ _ _ (by rw [hsz j hj]; exact h1)]
+      exact hsz j hj
+    obtain ⟨buf, e, a, b⟩ := refill_go_some loadN (2 * s.L) B h2 mask input 0 _ hshift
+      (by rw [Array.size_map]; omega) hin
+    exact ⟨buf, e, a, by rw [b, Array.size_map]⟩
+  · rw [Bool.not_eq_true, Array.any_eq_false]
+    intro j hj
+    rw [hsz j hj]; simp only [gt_iff_lt, decide_eq_true_eq, not_lt]; exact h1
+
+theorem firstShort_go_none (need : ℕ) (lens : List ℕ) (mask : List Bool) (i : ℕ)
+    (h : firstShort.go need lens mask i = none) :
+    ∀ (j l : ℕ), mask[j]? = some true → lens[j]? = some l → need ≤ l := by
+  induction lens generalizing mask i with
+  | nil => intro j l _ h2; simp at h2
+  | cons l0 ls ih =>
+    cases mask with
+    | nil => intro j l h1; simp at h1
+    | cons m ms =>
+      unfold firstShort.go at h
+      split at h
+      · simp at h
+      · rename_i hc
+        intro j l h1 h2
+        cases j with
+        | zero =>
+          simp only [List.getElem?_cons_zero, Option.some.injEq] at h1 h2
+          subst h1 h2
+          simp only [Bool.true_and, decide_eq_true_eq, not_lt] at hc
+          exact hc
+        | succ j =>
+          exact ih ms (i + 1) h j l (by simpa using h1) (by simpa using h2)
+
+
+/-- the length every channel buffer is allocated with by the constructor -/
+def allocLen (s : AState ℚ ℚ) : ℕ := bufLenOut s.maxRel (neededInit s.maxChunk s.orig s.L) s.L
+
+/-- buffer part of the invariant -/
+structure BufInv (s : AState ℚ ℚ) : Prop where
+  nbuf : s.buf.size = s.nch
+  sizes : AllSize s.buf (allocLen s)
+  fill_le : s.fill + 2 * s.L ≤ allocLen s
+
+/-- the stages of `process` for a fixed-output resampler -/
+theorem process_stage_mask_err {s : AState ℚ ℚ} {a : CallArgs ℚ} {e : RErr}
+    (hm : updateMask s.nch a.mask = .error e) : s.process a = (s, .err e) := by
+  unfold AState.process; simp only [hm]
+
+theorem process_stage_validate_err {s : AState ℚ ℚ} {a : CallArgs ℚ} {mask : List Bool} {e : RErr}
+    (hk : s.kind = .fastOut ∨ s.kind = .sincOut)
+    (hm : updateMask s.nch a.mask = .ok mask)
+    (hv : validateBuffers (a.input.map Array.size) a.outLens mask s.nch s.needed s.chunk = .error e) :
+    s.process a = ({ s with mask := mask }, .err e) := by
+  unfold AState.process
+  rcases hk with k | k <;>
+    simp only [hm, AState.minIn, AState.minOut, k, AKind.isFixedIn, Bool.false_eq_true, if_false, hv]
+
+theorem process_stage_finish {s : AState ℚ ℚ} {a : CallArgs ℚ} {mask : List Bool}
+    {buf : Array (Array ℚ)} (hk : s.kind = .fastOut ∨ s.kind = .sincOut)
+    (hm : updateMask s.nch a.mask = .ok mask)
+    (hv : validateBuffers (a.input.map Array.size) a.outLens mask s.nch s.needed s.chunk = .ok ())
+    (hr : refill ({ s with mask := mask } : AState ℚ ℚ) mask a.input s.fill s.needed = some buf) :
+    s.process a = ({ s with mask := mask, buf := buf, fill := s.needed } : AState ℚ ℚ).finishOut mask := by
+  unfold AState.process
+  rcases hk with k | k <;> simp only [k] at hr <;>
+    simp only [hm, AState.minIn, AState.minOut, AState.shiftFrom, k, AKind.isFixedIn,
+      Bool.false_eq_true, if_false, hv, hr]
+
+theorem updateMask_length {nch : ℕ} {user : Option (List Bool)} {mask : List Bool}
+    (h : updateMask nch user = .ok mask) : mask.length = nch := by
+  unfold updateMask at h
+  split at h
+  · simp only [Except.ok.injEq] at h; subst h; simp
+  · split at h
+    · simp at h
+    · rename_i hl; simp only [Except.ok.injEq] at h; subst h
+      simpa using hl
+
+theorem validateBuffers_inputs {inLens outLens : List ℕ} {mask : List Bool} {ch minIn minOut : ℕ}
+    (h : validateBuffers inLens outLens mask ch minIn minOut = .ok ()) :
+    ∀ (j l : ℕ), mask[j]? = some true → inLens[j]? = some l → minIn ≤ l := by
+  unfold validateBuffers at h
+  split at h
+  · simp at h
+  · split at h
+    · simp at h
+    · split at h
+      · simp at h
+      · rename_i hfs
+        exact firstShort_go_none minIn inLens mask 0 hfs
+
+
+/-- side conditions on the sinc interpolator (vacuous for `.fastOut`) -/
+structure SincOk (s : AState ℚ ℚ) : Prop where
+  len_eq : s.kind = .sincOut → s.ip.len = s.L
+  nbr_pos : s.kind = .sincOut → 1 ≤ s.ip.nbr
+  nbr_two : s.kind = .sincOut → s.sint = .cubic ∨ s.sint = .quadratic → 2 ≤ s.ip.nbr
+
+/-- `BufInv` only looks at `buf`, `nch`, `fill` and the allocation parameters -/
+theorem BufInv.of_eq {s s' : AState ℚ ℚ} (h : BufInv s) (hb : s'.buf = s.buf) (hn : s'.nch = s.nch)
+    (hf : s'.fill = s.fill) (hL : s'.L = s.L) (ho : s'.orig = s.orig) (hm : s'.maxRel = s.maxRel)
+    (hmc : s'.maxChunk = s.maxChunk) : BufInv s' := by
+  have ha : allocLen s' = allocLen s := by simp only [allocLen, hL, ho, hm, hmc]
+  exact ⟨by rw [hb, hn]; exact h.nbuf, by rw [hb, ha]; exact h.sizes, by rw [hf, hL, ha]; exact h.fill_le⟩
+
+theorem finishOut_ok_buf {s s' : AState ℚ ℚ} {mask : List Bool} {out : CallOut ℚ}
+    (h : s.finishOut mask = (s', .ok out)) :
+    s'.buf = s.buf ∧ s'.nch = s.nch ∧ s'.fill = s.fill ∧ s'.mask = s.mask := by
+  unfold AState.finishOut at h
+  simp only at h
+  split at h
+  · simp only [Prod.mk.injEq] at h
+    exact absurd h.2 (faultOutcome_ne_ok _ _)
+  · simp only [Prod.mk.injEq, Outcome.ok.injEq] at h
+    obtain ⟨rfl, rfl⟩ := h
+    exact ⟨rfl, rfl, rfl, rfl⟩
+
+/-- **No panic, no abort.**  In a state satisfying `Inv`, `BufInv` and (for `.sincOut`) `SincOk`,
+with `L ≥ 8`, a call of `process` either returns one of the errors of `validate_buffers` / the
+mask check and leaves the control state alone, or succeeds — consuming exactly `needed` frames,
+producing exactly `chunk` frames, and re-establishing all invariants. -/
+theorem process_no_panic {s : AState ℚ ℚ} (a : CallArgs ℚ) (h : Inv s) (hb : BufInv s) (hL : 8 ≤ s.L)
+    (hs : SincOk s) :
+    (∃ e, (s.process a).2 = .err e ∧ Inv (s.process a).1 ∧ BufInv (s.process a).1) ∨
+    (∃ out, (s.process a).2 = .ok out ∧ Inv (s.process a).1 ∧ Steady (s.process a).1 ∧
+      BufInv (s.process a).1 ∧ out.nIn = s.needed ∧ out.nOut = s.chunk ∧
+      ((s.kind = .fastOut ∨ factorNoOvershoot s.sint s.ip.nbr) → out.stale = false)) := by
+  have hsuff := bufLen_sufficient h hL
+  cases hm : updateMask s.nch a.mask with
+  | error e =>
+    rw [process_stage_mask_err hm]
+    exact Or.inl ⟨e, rfl, h, hb⟩
+  | ok mask =>
+    have hml := updateMask_length hm
+    cases hv : validateBuffers (a.input.map Array.size) a.outLens mask s.nch s.needed s.chunk with
+    | error e =>
+      rw [process_stage_validate_err h.kind_out hm hv]
+      exact Or.inl ⟨e, rfl, h.of_eq rfl rfl rfl rfl rfl rfl rfl rfl rfl rfl,
+        hb.of_eq rfl rfl rfl rfl rfl rfl rfl⟩
+    | ok u =>
+      cases u
+      have hin := validateBuffers_inputs hv
+      -- the refill succeeds
+      obtain ⟨buf, hr, hbs, hbn⟩ := refill_some (s := ({ s with mask := mask } : AState ℚ ℚ))
+        (B := allocLen s) hb.sizes mask a.input s.fill s.needed hb.fill_le
+        (by show 2 * s.L + s.needed ≤ allocLen s; unfold allocLen; omega)
+        (by show mask.length ≤ s.buf.size; rw [hb.nbuf, hml])
+        (by
+          intro j inp h1 h2
+          exact hin j inp.size h1 (by rw [List.getElem?_map, h2]; rfl))
+      rw [process_stage_finish h.kind_out hm hv hr]
+      set s2 : AState ℚ ℚ := { s with mask := mask, buf := buf, fill := s.needed } with hs2
+      have hi2 : Inv s2 := h.of_eq rfl rfl rfl rfl rfl rfl rfl rfl rfl rfl
+      have hbuf2 : ∀ j, mask[j]? = some true → 2 * s2.L + s2.needed + 2 ≤ (s2.buf.getD j #[]).size := by
+        intro j hj
+        have hjl : j < mask.length := by
+          by_contra hc
+          rw [List.getElem?_eq_none (by omega)] at hj; cases hj
+        have hjb : j < buf.size := by
+          rw [hbn]; show j < s.buf.size; rw [hb.nbuf, ← hml]; exact hjl
+        show 2 * s.L + s.needed + 2 ≤ (buf.getD j #[]).size
+        rw [getD_size_of_allSize hbs hjb]; exact hsuff
+      have hf2 : s2.fill = s2.needed := rfl
+      have hbi2 : BufInv s2 :=
+        ⟨by show buf.size = s.nch; rw [hbn]; exact hb.nbuf, hbs,
+          by show s.needed + 2 * s.L ≤ allocLen s; unfold allocLen; omega⟩
+      have hfinB : ∀ {s' : AState ℚ ℚ} {out : CallOut ℚ}, s2.finishOut mask = (s', .ok out) → BufInv s' := by
+        intro s' out hfo
+        obtain ⟨_, _, _, _, _, e6, _, e8, e9, e10, _⟩ := finishOut_ok hfo
+        obtain ⟨b1, b2, b3, _⟩ := finishOut_ok_buf hfo
+        exact hbi2.of_eq b1 b2 b3 e6 e8 e9 e10
+      rcases h.kind_out with k | k
+      · obtain ⟨s', out, hfo, i', st', hstale, hnin, hnout⟩ := fastOut_finish_ok hi2 k hf2 mask
+          (fun j hj => by have := hbuf2 j hj; omega)
+        rw [hfo]
+        exact Or.inr ⟨out, rfl, i', st', hfinB hfo, hnin, hnout, fun _ => hstale⟩
+      · obtain ⟨s', out, hfo, i', st', hnin, hnout, hstale⟩ := sincOut_finish_ok hi2 k hf2
+          (hs.len_eq k) (by show 2 ≤ s.L; omega) (hs.nbr_pos k) (hs.nbr_two k) mask hbuf2
+        rw [hfo]
+        refine Or.inr ⟨out, rfl, i', st', hfinB hfo, hnin, hnout, ?_⟩
+        rintro (hk' | hno)
+        · rw [k] at hk'; cases hk'
+        · exact hstale hno
+
+
+/-! ## J. Everything together: the invariant of a fixed-output resampler over its whole life -/
+
+/-- all the invariants; `L` is a multiple of 8 in the Rust crate (`8` for the polynomial
+resamplers, `sinc_len` rounded up to a multiple of 8 by `make_interpolator`), we only need
+`L` even and `L ≥ 8` -/
+structure Good (s : AState ℚ ℚ) : Prop where
+  inv : Inv s
+  buf : BufInv s
+  sinc : SincOk s
+  L8 : 8 ≤ s.L
+  even : 2 ∣ s.L
+
+theorem SincOk.of_eq {s s' : AState ℚ ℚ} (h : SincOk s) (hk : s'.kind = s.kind) (hL : s'.L = s.L)
+    (hip : s'.ip = s.ip) (hs : s'.sint = s.sint) : SincOk s' := by
+  constructor
+  · rw [hk, hip, hL]; exact h.len_eq
+  · rw [hk, hip]; exact h.nbr_pos
+  · rw [hk, hip, hs]; exact h.nbr_two
+
+theorem zeroBuf_allSize (nch len : ℕ) : AllSize (zeroBuf (ρ := ℚ) (σ := ℚ) nch len) len := by
+  intro j hj
+  simp [zeroBuf]
+
+/-- the constructor establishes `Good` -/
+theorem good_init {kind : AKind} (hk : kind = .fastOut ∨ kind = .sincOut) {ratio maxRel : ℚ}
+    {deg : Degree} {sint : SincInterp} {ip : Interp ℚ} {chunk nch : ℕ} {s : AState ℚ ℚ}
+    (hc : 0 < chunk)
+    (hLe : kind = .sincOut → 2 ∣ ip.len) (hL8 : kind = .sincOut → 8 ≤ ip.len)
+    (hn : kind = .sincOut → 1 ≤ ip.nbr)
+    (hn2 : kind = .sincOut → sint = .cubic ∨ sint = .quadratic → 2 ≤ ip.nbr)
+    (h : AState.init kind ratio maxRel deg sint ip chunk nch = .ok s) : Good s := by
+  have hinv := inv_init hk hc hLe h
+  unfold AState.init at h
+  split at h
+  · simp at h
+  · have hfi : kind.isFixedIn = false := by rcases hk with k | k <;> simp [k, AKind.isFixedIn]
+    simp only [hfi, Bool.false_eq_true, if_false, Except.ok.injEq] at h
+    have e_kind : s.kind = kind := by rw [← h]
+    have e_L : s.L = if kind.isSinc then ip.len else Fast.polyLen := by rw [← h]
+    have e_ip : s.ip = ip := by rw [← h]
+    have e_sint : s.sint = sint := by rw [← h]
+    have hL8' : 8 ≤ s.L := by
+      rw [e_L]; rcases hk with k | k
+      · simp [k, AKind.isSinc, Fast.polyLen]
+      · simpa [k, AKind.isSinc] using hL8 k
+    have hev : 2 ∣ s.L := by
+      rw [e_L]; rcases hk with k | k
+      · simp [k, AKind.isSinc, Fast.polyLen]
+      · simpa [k, AKind.isSinc] using hLe k
+    have hsuff := bufLen_sufficient hinv hL8'
+    refine ⟨hinv, ?_, ?_, hL8', hev⟩
+    · have e_alloc : allocLen s = bufLenOut maxRel (neededInit chunk ratio s.L) s.L := by
+        unfold allocLen; rw [← h]
+      have e_buf : s.buf = zeroBuf nch (bufLenOut maxRel (neededInit chunk ratio s.L) s.L) := by
+        rw [← h]
+      have e_nch : s.nch = nch := by rw [← h]
+      have e_fill : s.fill = s.needed := by rw [← h]
+      refine ⟨?_, ?_, ?_⟩
+      · rw [e_buf, e_nch]; simp [zeroBuf]
+      · rw [e_alloc, e_buf]; exact zeroBuf_allSize _ _
+      · rw [e_fill]; unfold allocLen at *; omega
+    · constructor
+      · intro k; rw [e_kind] at k; rw [e_ip, e_L]; simp [k, AKind.isSinc]
+      · intro k; rw [e_kind] at k; rw [e_ip]; exact hn k
+      · intro k; rw [e_kind] at k; rw [e_ip, e_sint]; exact hn2 k
+
+theorem setRatio_fields (s : AState ℚ ℚ) (new : ℚ) (ramp : Bool) :
+    let s' := (s.setRatio new ramp).1
+    s'.kind = s.kind ∧ s'.L = s.L ∧ s'.ip = s.ip ∧ s'.sint = s.sint ∧ s'.buf = s.buf ∧
+      s'.nch = s.nch ∧ s'.fill = s.fill ∧ s'.orig = s.orig ∧ s'.maxRel = s.maxRel ∧
+      s'.maxChunk = s.maxChunk := by
+  unfold AState.setRatio
+  split
+  · cases hk : s.kind <;> simp
+  · simp
+
+theorem setChunk_fields (s : AState ℚ ℚ) (n : ℕ) :
+    let s' := (s.setChunk n).1
+    s'.kind = s.kind ∧ s'.L = s.L ∧ s'.ip = s.ip ∧ s'.sint = s.sint ∧ s'.buf = s.buf ∧
+      s'.nch = s.nch ∧ s'.fill = s.fill ∧ s'.orig = s.orig ∧ s'.maxRel = s.maxRel ∧
+      s'.maxChunk = s.maxChunk := by
+  unfold AState.setChunk
+  cases hk : s.kind <;> simp only [hk] <;> (try split) <;> simp [hk]
+
+theorem good_setRatio {s : AState ℚ ℚ} (h : Good s) (new : ℚ) (ramp : Bool) :
+    Good (s.setRatio new ramp).1 := by
+  obtain ⟨e1, e2, e3, e4, e5, e6, e7, e8, e9, e10⟩ := setRatio_fields s new ramp
+  exact ⟨inv_setRatio h.inv new ramp, h.buf.of_eq e5 e6 e7 e2 e8 e9 e10, h.sinc.of_eq e1 e2 e3 e4,
+    by rw [e2]; exact h.L8, by rw [e2]; exact h.even⟩
+
+theorem good_setChunk {s : AState ℚ ℚ} (h : Good s) (n : ℕ) : Good (s.setChunk n).1 := by
+  obtain ⟨e1, e2, e3, e4, e5, e6, e7, e8, e9, e10⟩ := setChunk_fields s n
+  exact ⟨inv_setChunk h.inv n, h.buf.of_eq e5 e6 e7 e2 e8 e9 e10, h.sinc.of_eq e1 e2 e3 e4,
+    by rw [e2]; exact h.L8, by rw [e2]; exact h.even⟩
+
+
+theorem finishOut_fields (s : AState ℚ ℚ) (mask : List Bool) :
+    (s.finishOut mask).1.kind = s.kind ∧ (s.finishOut mask).1.L = s.L ∧
+      (s.finishOut mask).1.ip = s.ip ∧ (s.finishOut mask).1.sint = s.sint := by
+  unfold AState.finishOut
+  simp only
+  split <;> simp
+
+theorem process_fields {s : AState ℚ ℚ} (hk : s.kind.isFixedIn = false) (a : CallArgs ℚ) :
+    (s.process a).1.kind = s.kind ∧ (s.process a).1.L = s.L ∧
+      (s.process a).1.ip = s.ip ∧ (s.process a).1.sint = s.sint := by
+  unfold AState.process
+  simp only [hk, Bool.false_eq_true, if_false]
+  split
+  · simp
+  · split
+    · simp
+    · split
+      · simp
+      · exact finishOut_fields _ _
+
+/-- `process`, whatever it returns, keeps `Good`; and it never panics or aborts -/
+theorem good_process {s : AState ℚ ℚ} (h : Good s) (a : CallArgs ℚ) :
+    Good (s.process a).1 ∧
+      ((∃ e, (s.process a).2 = .err e) ∨
+       (∃ out, (s.process a).2 = .ok out ∧ Steady (s.process a).1 ∧ out.nIn = s.needed ∧
+          out.nOut = s.chunk ∧
+          ((s.kind = .fastOut ∨ factorNoOvershoot s.sint s.ip.nbr) → out.stale = false))) := by
+  obtain ⟨e1, e2, e3, e4⟩ := process_fields h.inv.not_fixedIn a
+  have hs : SincOk (s.process a).1 := h.sinc.of_eq e1 e2 e3 e4
+  have h8 : 8 ≤ (s.process a).1.L := by rw [e2]; exact h.L8
+  have hev : 2 ∣ (s.process a).1.L := by rw [e2]; exact h.even
+  rcases process_no_panic a h.inv h.buf h.L8 h.sinc with ⟨e, he, hi, hb⟩ | ⟨out, ho, hi, hst, hb, r1, r2, r3⟩
+  · exact ⟨⟨hi, hb, hs, h8, hev⟩, Or.inl ⟨e, he⟩⟩
+  · exact ⟨⟨hi, hb, hs, h8, hev⟩, Or.inr ⟨out, ho, hst, r1, r2, r3⟩⟩
+
+theorem zeroLike_allSize {b : Array (Array ℚ)} {B : ℕ} (h : AllSize b B) :
+    AllSize (zeroLike (ρ := ℚ) b) B := by
+  intro j hj
+  simp only [zeroLike, Array.size_map] at hj
+  simp only [zeroLike, Array.getElem_map, Array.size_replicate]
+  exact h j hj
+
+theorem reset_fields (s : AState ℚ ℚ) :
+    s.reset.kind = s.kind ∧ s.reset.L = s.L ∧ s.reset.ip = s.ip ∧ s.reset.sint = s.sint ∧
+      s.reset.buf = zeroLike s.buf ∧ s.reset.nch = s.nch ∧ s.reset.orig = s.orig ∧
+      s.reset.maxRel = s.maxRel ∧ s.reset.maxChunk = s.maxChunk ∧
+      (s.kind.isFixedIn = false → s.reset.fill = s.reset.needed) := by
+  unfold AState.reset
+  cases hk : s.kind <;> simp [AKind.isFixedIn]
+
+theorem good_reset {s : AState ℚ ℚ} (h : Good s) : Good s.reset := by
+  obtain ⟨e1, e2, e3, e4, e5, e6, e7, e8, e9, e10⟩ := reset_fields s
+  have hi := inv_reset h.inv h.even
+  have h8 : 8 ≤ s.reset.L := by rw [e2]; exact h.L8
+  have hsuff := bufLen_sufficient hi h8
+  have ha : allocLen s.reset = allocLen s := by simp only [allocLen, e2, e7, e8, e9]
+  refine ⟨hi, ⟨?_, ?_, ?_⟩, h.sinc.of_eq e1 e2 e3 e4, h8, by rw [e2]; exact h.even⟩
+  · rw [e5, e6]; simp only [zeroLike, Array.size_map]; exact h.buf.nbuf
+  · rw [e5, ha]; exact zeroLike_allSize h.buf.sizes
+  · rw [e10 h.inv.not_fixedIn]; unfold allocLen at *; omega
+
+/-! ### Reachable states -/
+
+/-- the operations of the public API that change a fixed-output resampler -/
+inductive Op where
+  | setRatio (new : ℚ) (ramp : Bool)
+  | setRatioRelative (rel : ℚ) (ramp : Bool)
+  | setChunk (n : ℕ)
+  | reset
+  | process (a : CallArgs ℚ)
+
+def Op.apply (s : AState ℚ ℚ) : Op → AState ℚ ℚ
+  | .setRatio new ramp => (s.setRatio new ramp).1
+  | .setRatioRelative rel ramp => (s.setRatioRelative rel ramp).1
+  | .setChunk n => (s.setChunk n).1
+  | .reset => s.reset
+  | .process a => (s.process a).1
+
+theorem good_apply {s : AState ℚ ℚ} (h : Good s) (op : Op) : Good (op.apply s) := by
+  cases op with
+  | setRatio new ramp => exact good_setRatio h new ramp
+  | setRatioRelative rel ramp => exact good_setRatio h _ ramp
+  | setChunk n => exact good_setChunk h n
+  | reset => exact good_reset h
+  | process a => exact (good_process h a).1
+
+/-- **Main theorem of this file.**  Start from a constructed fixed-output resampler and apply ANY
+sequence of API calls (in any order, with any arguments, successful or not): the state stays
+`Good`, so every `process` call in the sequence ends in `Ok` or in a `ResampleError` — never in a
+panic or an out-of-bounds access. -/
+theorem good_foldl {s : AState ℚ ℚ} (h : Good s) (ops : List Op) : Good (ops.foldl Op.apply s) := by
+  induction ops generalizing s with
+  | nil => exact h
+  | cons op ops ih => exact ih (good_apply h op)
+
+theorem process_after_any_history {s : AState ℚ ℚ} (h : Good s) (ops : List Op) (a : CallArgs ℚ) :
+    let s' := ops.foldl Op.apply s
+    (∃ e, (s'.process a).2 = .err e) ∨ (∃ out, (s'.process a).2 = .ok out ∧ out.nIn = s'.needed ∧
+      out.nOut = s'.chunk) := by
+  intro s'
+  rcases (good_process (good_foldl h ops) a).2 with ⟨e, he⟩ | ⟨out, ho, _, r1, r2, _⟩
+  · exact Or.inl ⟨e, he⟩
+  · exact Or.inr ⟨out, ho, r1, r2⟩
+
+
+/-- `Good` is not vacuous: the two concrete resamplers of section G are `Good` after construction,
+hence (by `good_foldl`) after any history -/
+example : ∃ s, exFast = .ok s ∧ Good s := by
+  have hv : validateRatios (1 / 2 : ℚ) 2 = .ok () := by
+    simp only [validateRatios, le_eq, zero_eq, lt_eq, one_eq]; norm_num
+  have he : ∃ s, exFast = .ok s := by
+    simp only [exFast, AState.init, hv, AKind.isFixedIn]
+    exact ⟨_, rfl⟩
+  obtain ⟨s, hs⟩ := he
+  exact ⟨s, hs, good_init (Or.inl rfl) (by norm_num) nofun nofun nofun nofun hs⟩
+
+example : ∃ s, exSinc = .ok s ∧ Good s := by
+  have hv : validateRatios (1 : ℚ) 2 = .ok () := by
+    simp only [validateRatios, le_eq, zero_eq, lt_eq, one_eq]; norm_num
+  have he : ∃ s, exSinc = .ok s := by
+    simp only [exSinc, AState.init, hv, AKind.isFixedIn]
+    exact ⟨_, rfl⟩
+  obtain ⟨s, hs⟩ := he
+  exact ⟨s, hs, good_init (Or.inr rfl) (by norm_num) (fun _ => by norm_num) (fun _ => by norm_num)
+    (fun _ => by norm_num) (fun _ _ => by norm_num) hs⟩
 
 
 end Rubato.FixedOut
